@@ -129,5 +129,25 @@ func (tfg *TaskfileGraph) Merge() (*Taskfile, error) {
 		return nil, err
 	}
 
+	// References with a leading separator (":task") name a task of the root
+	// Taskfile. They are kept as they are while the Taskfiles are merged level
+	// by level; now that everything is in the root Taskfile they can be turned
+	// into plain names. Tasks defined in the root Taskfile itself are left alone.
+	for _, task := range rootVertex.Taskfile.Tasks.All(nil) {
+		if task.Location == nil || task.Location.Taskfile == rootVertex.URI {
+			continue
+		}
+		for _, dep := range task.Deps {
+			if dep != nil {
+				dep.Task = strings.TrimPrefix(dep.Task, NamespaceSeparator)
+			}
+		}
+		for _, cmd := range task.Cmds {
+			if cmd != nil {
+				cmd.Task = strings.TrimPrefix(cmd.Task, NamespaceSeparator)
+			}
+		}
+	}
+
 	return rootVertex.Taskfile, nil
 }
